@@ -34,10 +34,21 @@ def live_patterns():
     from tensora.expression._parser import TensorExpressionParsers as P
     from tensora.format._parser import FormatParsers as F
 
-    fp = P.floating_point.parser.pattern.pattern
-    integer = P.integer.parser.pattern.pattern
-    name = P.name.pattern.pattern
-    fint = F.integer.parser.pattern.pattern
+    def regex_of(parser):
+        # a parsita RegexParser, possibly wrapped in conversion parsers (`reg(...) > f`)
+        for _ in range(6):
+            pat = getattr(parser, "pattern", None)
+            if pat is not None and hasattr(pat, "pattern"):
+                return pat.pattern
+            if not hasattr(parser, "parser"):
+                break
+            parser = parser.parser
+        raise HarnessError(f"cannot find the regular expression of {parser!r}")
+
+    fp = regex_of(P.floating_point)
+    integer = regex_of(P.integer)
+    name = regex_of(P.name)
+    fint = regex_of(F.integer)
     return {"floating_point": fp, "integer": integer, "name": name, "format_integer": fint}
 
 
@@ -152,6 +163,45 @@ def replay_spellings(rep, number_in, per_class=8):
                 rep.violation({"name": f"literal {w}", "kind": "literal-does-not-reparse", "spelling": w},
                               {"property": "C12", "part": 1, "spelling": w, "class": label, "text": text,
                                "result": repr(p)[:300]})
+    # the *input* side: every shape of number the live grammar accepts (mantissa with/without a fraction x no
+    # exponent / e / E x exponent sign) - strings drawn by the solver from L(live regex) /\ L(shape) must be
+    # parsed, without raising, to the literal Python itself reads
+    for mant_label, mant in (("int", r"[0-9]+"), ("frac", r"[0-9]+\.[0-9]+")):
+        for exp_label, exp in (("", ""), ("e", "e"), ("E", "E")):
+            for sign_label, sign in ((("", ""),) if not exp else (("", ""), ("+", r"\+"), ("-", "-"))):
+                shape = mant + (exp + sign + r"[0-9]+" if exp else "")
+                sv = z3.Solver()
+                sv.set("timeout", 20000)
+                w_ = z3.String("w")
+                sv.add(z3.InRe(w_, number_in), z3.InRe(w_, rex.to_z3(shape)))
+                seen = []
+                for k in range(3):
+                    sv.push()
+                    sv.add(z3.Length(w_) >= len(mant_label) + 2 * k)
+                    for w in seen:
+                        sv.add(w_ != z3.StringVal(w))
+                    res = sv.check()
+                    if res != z3.sat:
+                        sv.pop()
+                        break  # the live grammar has no spelling of this shape (or none longer)
+                    w = sv.model()[w_].as_string()
+                    sv.pop()
+                    seen.append(w)
+                    n += 1
+                    text = f"A(i) = {w} * B(i)"
+                    try:
+                        p = parse_assignment(text)
+                        raised = None
+                    except Exception as e:  # noqa: BLE001 - "parsing never raises"
+                        p, raised = None, f"{type(e).__name__}: {e}"[:200]
+                    ok = raised is None and isinstance(p, Success)
+                    if ok:
+                        want = s_ast.Integer(int(w)) if (mant_label == "int" and not exp) else s_ast.Float(float(w))
+                        ok = p.unwrap().expression.left == want
+                    if not ok:
+                        rep.violation({"name": f"literal {w}", "kind": "parser-raised" if raised else "literal-misread", "spelling": w},
+                                      {"property": "C12", "part": 1, "spelling": w, "class": f"input {mant_label}{exp_label}{sign_label}",
+                                       "text": text, "raised": raised, "result": repr(p)[:300]})
     # and the spellings str() really produces for boundary values
     for v in [2.5e-07, 1.5e-05, 1.2345678901234568e+16, 1e+16, 1e-05, 123.456, 5e-324, 1.7976931348623157e+308]:
         n += 1
